@@ -75,6 +75,7 @@ theorem c04_inv_step (s : PSet V) (op : Op V) (hs : Coherent s) : Coherent (s.st
       exact huc
   | chfix n v => exact (changeFixedValue_coherent hs n v).1
   | copy => exact hs
+  | badArgs => exact hs
   | map a models al => exact hs
 
 /-- in a coherent set every view computed from the caches equals the view computed from the bare
@@ -163,6 +164,7 @@ theorem c04_reject_leaves_state (s : PSet V) (hs : Coherent s) (op : Op V) (e : 
       | ok u => rw [hu] at h; cases h
   | chfix n v => exact (changeFixedValue_coherent hs n v).2 e h
   | copy => cases h
+  | badArgs => rfl
   | map a models al => rfl
 
 /-- a value outside the bounds of a floating parameter is rejected by the setter -/
@@ -352,6 +354,7 @@ theorem c04_pmm_reject_leaves_state (s : PMM V) (hw : C04.PMMWF s) (op : Op V) (
   | union o l => rfl
   | unionN o l => rfl
   | copy => rfl
+  | badArgs => rfl
 
 /-! ### the mapper invariant is kept by every edit -/
 
@@ -572,6 +575,7 @@ theorem c04_pmm_inv_step (s : PMM V) (op : Op V) (hw : C04.PMMWF s) : C04.PMMWF 
   | union o l => exact hw
   | unionN o l => exact hw
   | copy => exact hw
+  | badArgs => exact hw
 
 theorem c04_pmm_inv_init (models : List (String × Bool)) : C04.PMMWF (PMM.create models : PMM V) :=
   ⟨c04_inv_init, by simp [PMM.create], by simp [PMM.create, PSet.empty], by simp [PMM.create]⟩
@@ -880,6 +884,7 @@ theorem c04_simulates (s : PSet V) (hs : Coherent s) (op : Op V) :
       | error e => rfl
       | ok p' => rfl
   | copy => rfl
+  | badArgs => rfl
   | map a models al => rfl
 
 /-- **refinement against the specification machine**: after any history the parameter list is the one
@@ -1285,3 +1290,373 @@ example : (PSet.run (PSet.empty : PSet Int)
     [.add ⟨"a", 1, some 0, some 2, none⟩ false,
      .unionN [[⟨"b", 5, none, none, none⟩], [⟨"a", 9, none, none, none⟩, ⟨"c", 2, none, none, none⟩]] 1]).params.map
       (fun p => (p.name, p.initial)) = [("b", 5), ("a", 1), ("c", 2)] := by decide
+
+/-! ### field names, closed form of the table cell, the three value views agree -/
+
+
+
+/-- **field set of the record array**: a local name is a column exactly when some *source* model has a
+parameter mapped under it -/
+theorem c04_src_fields (s : PMM V) (f : String) : f ∈ s.srcFieldNames ↔
+    ∃ (i : Nat) (m : String × Bool) (row : List (Option String)),
+      s.models[i]? = some m ∧ m.2 = true ∧ s.mpn[i]? = some row ∧ some f ∈ row := by
+  unfold PMM.srcFieldNames
+  simp only [List.mem_eraseDups, List.mem_filterMap, List.mem_flatten, List.mem_map, List.mem_filter, id]
+  constructor
+  · rintro ⟨o, ⟨l, ⟨rm, ⟨hrm, hsrc⟩, hl⟩, hol⟩, ho⟩
+    subst ho; subst hl
+    obtain ⟨i, hi⟩ := List.mem_iff_getElem?.1 hrm
+    obtain ⟨h1, h2⟩ := List.getElem?_zip_eq_some.1 hi
+    exact ⟨i, rm.2, rm.1, h2, hsrc, h1, hol⟩
+  · rintro ⟨i, m, row, hm, hsrc, hrow, hmem⟩
+    have hz : (row, m) ∈ s.mpn.zip s.models :=
+      List.mem_iff_getElem?.2 ⟨i, List.getElem?_zip_eq_some.2 ⟨hrow, hm⟩⟩
+    exact ⟨some f, ⟨row, ⟨(row, m), ⟨hz, hsrc⟩, rfl⟩, hmem⟩, rfl⟩
+
+/-- the local names of *all* models (`unique_model_param_names`) -/
+theorem c04_model_fields (s : PMM V) (f : String) : f ∈ s.modelFieldNames ↔ ∃ row ∈ s.mpn, some f ∈ row := by
+  unfold PMM.modelFieldNames
+  simp only [List.mem_eraseDups, List.mem_filterMap, List.mem_flatten, id]
+  constructor
+  · rintro ⟨o, ⟨row, hrow, ho⟩, rfl⟩; exact ⟨row, hrow, ho⟩
+  · rintro ⟨row, hrow, ho⟩; exact ⟨some f, ⟨row, hrow, ho⟩, rfl⟩
+
+/-- number of floating parameters in front of position `j` = index of the fit parameter at `j` -/
+def C04.rankAt (ps : List (Param V)) (j : Nat) : Nat := ((ps.take j).filter (fun p => !p.isfixed)).length
+
+/-- **closed form of the table cell**: if the parameter at global position `j` is the first one mapped
+under the local name `f` and the supplied vector covers the floating parameters in front of it, the
+cell is `(its fixed value, -(j+1))` when it is fixed and `(g[k], k+1)`, `k` = its fit-parameter index,
+when it is floating (`none` when the vector ends before `k`). -/
+theorem c04_cell_at (f : String) (ps : List (Param V)) (row : List (Option String)) (j : Nat) (p : Param V)
+    (j0 k0 : Nat) (g : List V) (hp : ps[j]? = some p) (hr : row[j]? = some (some f))
+    (hfirst : ∀ j' < j, row[j']? ≠ some (some f)) (hg : C04.rankAt ps j ≤ g.length) :
+    Spec.cell f ps row j0 k0 g =
+      if p.isfixed then some (p.value, -(((j0 + j : Nat) : Int) + 1))
+      else (g[C04.rankAt ps j]?).map (fun v => (v, ((k0 + C04.rankAt ps j : Nat) : Int) + 1)) := by
+  induction j generalizing ps row j0 k0 g with
+  | zero =>
+    cases ps with
+    | nil => simp at hp
+    | cons q ps =>
+      cases row with
+      | nil => simp at hr
+      | cons r row =>
+        simp only [List.getElem?_cons_zero, Option.some.injEq] at hp hr
+        subst hp; subst hr
+        unfold Spec.cell
+        cases hf : q.isfixed
+        · cases g with
+          | nil => simp [C04.rankAt]
+          | cons v g' => simp [C04.rankAt]
+        · simp
+  | succ j ih =>
+    cases ps with
+    | nil => simp at hp
+    | cons q ps =>
+      cases row with
+      | nil => simp at hr
+      | cons r row =>
+        simp only [List.getElem?_cons_succ] at hp hr
+        have hr0 : r ≠ some f := by
+          have := hfirst 0 (by omega)
+          simpa using this
+        have hfirst' : ∀ j' < j, row[j']? ≠ some (some f) := by
+          intro j' hj'
+          have := hfirst (j' + 1) (by omega)
+          simpa using this
+        unfold Spec.cell
+        cases hf : q.isfixed
+        · -- q floating: consumes one value
+          have hrank : C04.rankAt (q :: ps) (j + 1) = C04.rankAt ps j + 1 := by
+            simp [C04.rankAt, List.filter_cons, hf]
+          cases g with
+          | nil => rw [hrank] at hg; simp at hg
+          | cons v g' =>
+            have hg' : C04.rankAt ps j ≤ g'.length := by rw [hrank] at hg; simpa using hg
+            simp only [Bool.false_eq_true, if_false, hr0]
+            rw [ih ps row (j0 + 1) (k0 + 1) g' hp hr hfirst' hg', hrank]
+            cases p.isfixed
+            · simp only [Bool.false_eq_true, if_false, List.getElem?_cons_succ]
+              congr 2
+              funext v
+              congr 2
+              push_cast
+              ring
+            · simp only [if_true]
+              congr 3
+              push_cast
+              ring
+        · have hrank : C04.rankAt (q :: ps) (j + 1) = C04.rankAt ps j := by
+            simp [C04.rankAt, List.filter_cons, hf]
+          simp only [if_true, hr0, if_false]
+          rw [ih ps row (j0 + 1) k0 g hp hr hfirst' (by rw [← hrank]; exact hg), hrank]
+          cases p.isfixed
+          · rfl
+          · simp only [if_true]
+            congr 3
+            push_cast
+            ring
+
+/-- dictionaries: the last assignment survives, also after projecting to (name, value) -/
+theorem C04.lastLookup_map_fst {β γ : Type} (k : String) (h : β → γ) (l : List (String × β)) :
+    lastLookup k (l.map (fun e => (e.1, h e.2))) = (lastLookup k l).map h := by
+  induction l with
+  | nil => rfl
+  | cons e l ih =>
+    obtain ⟨k', v⟩ := e
+    simp only [List.map_cons, lastLookup_cons, ih]
+    cases lastLookup k l with
+    | some w => rfl
+    | none => by_cases hk : k' = k <;> simp [hk]
+
+/-- **per-model dictionary and per-source table agree**: the value `create_model_params_dict` hands
+model `midx` under the local name `f` is the value part of the specification's table cell (for source
+and non-source models alike) -/
+theorem c04_model_dict_cell (s : PMM V) (hw : C04.PMMWF s) (g : List V)
+    (hg : g.length = s.gps.floatNames.length) (midx : Nat) (row : List (Option String))
+    (hrow : s.mpn[midx]? = some row) (f : String) :
+    ∃ d, s.modelParamsDict g midx = .ok d ∧
+      lastLookup f d = (Spec.cell f s.gps.params row 0 0 g).map (·.1) := by
+  have hmem : row ∈ s.mpn := List.mem_of_getElem? hrow
+  have hg' : g.length = (s.gps.params.filter (fun p => !p.isfixed)).length := by
+    rw [hg, hw.gps.caches.floatNames, List.length_map]
+  refine ⟨_, c04_model_dict s hw g hg midx row hrow, ?_⟩
+  rw [C04.lastLookup_map_fst f (fun (x : V × Int) => x.1),
+    cell_eq f s.gps.params row 0 0 g (hw.cols row hmem) hg' (hw.uniq row hmem)]
+
+/-- `get_model_idx_by_name`: the first model of that name -/
+theorem c04_model_idx_by_name (name : String) (models : List (String × Bool)) (i0 i : Nat)
+    (h : PMM.modelIdxByName name models i0 = .ok i) :
+    ∃ k m, i = i0 + k ∧ models[k]? = some m ∧ m.1 = name ∧ ∀ k' < k, ∀ m', models[k']? = some m' → m'.1 ≠ name := by
+  induction models generalizing i0 with
+  | nil => cases h
+  | cons m ms ih =>
+    unfold PMM.modelIdxByName at h
+    by_cases hm : m.1 = name
+    · rw [if_pos hm] at h
+      cases h
+      exact ⟨0, m, rfl, rfl, hm, fun k' hk' => by omega⟩
+    · rw [if_neg hm] at h
+      obtain ⟨k, m', h1, h2, h3, h4⟩ := ih (i0 + 1) h
+      refine ⟨k + 1, m', by omega, by simpa using h2, h3, ?_⟩
+      intro k' hk' m'' hm''
+      cases k' with
+      | zero => simp at hm''; subst hm''; exact hm
+      | succ k'' => exact h4 k'' (by omega) m'' (by simpa using hm'')
+
+/-- a model name that does not occur is a `KeyError`; otherwise the dictionary by name is the
+dictionary of the first model of that name -/
+theorem c04_model_dict_by_name (s : PMM V) (g : List V) (name : String) :
+    (∀ m ∈ s.models, m.1 ≠ name) → s.modelParamsDictByName g name = .error .keyError := by
+  intro h
+  have : ∀ (ms : List (String × Bool)) (i0 : Nat), (∀ m ∈ ms, m.1 ≠ name) →
+      PMM.modelIdxByName name ms i0 = .error .keyError := by
+    intro ms
+    induction ms with
+    | nil => intro _ _; rfl
+    | cons m ms ih =>
+      intro i0 hms
+      unfold PMM.modelIdxByName
+      rw [if_neg (hms m (by simp))]
+      exact ih (i0 + 1) (fun x hx => hms x (by simp [hx]))
+  unfold PMM.modelParamsDictByName
+  rw [this s.models 0 h]
+
+/-! ### consumers of `:gpidx`, the floating mask of local names, NaN fill, index-array form -/
+
+namespace C04
+
+theorem idxOf?_mem {f : String} {l : List String} (h : f ∈ l) : ∃ c, idxOf? f l = some c := by
+  induction l with
+  | nil => cases h
+  | cons x l ih =>
+    by_cases hx : x = f
+    · exact ⟨0, by simp [idxOf?, hx]⟩
+    · rcases List.mem_cons.1 h with h1 | h1
+      · exact absurd h1.symm hx
+      · obtain ⟨c, hc⟩ := ih h1
+        exact ⟨c + 1, by simp [idxOf?, hx, hc]⟩
+
+theorem idxOf?_not_mem {f : String} {l : List String} (h : f ∉ l) : idxOf? f l = none := idxOf?_eq_none h
+
+theorem idxOf?_getElem_map {α : Type} (F : String → α) {f : String} {l : List String} {c : Nat}
+    (h : idxOf? f l = some c) : (l.map F)[c]? = some (F f) := by
+  induction l generalizing c with
+  | nil => cases h
+  | cons x l ih =>
+    unfold idxOf? at h
+    by_cases hx : x = f
+    · rw [if_pos hx] at h; cases h; simp [hx]
+    · rw [if_neg hx] at h
+      cases hi : idxOf? f l with
+      | none => rw [hi] at h; cases h
+      | some c' =>
+        rw [hi] at h
+        simp only [Option.map_some, Option.some.injEq] at h
+        subst h
+        simpa using ih hi
+
+theorem mem_whereAlias (n : String) (row : List (Option String)) (j0 j : Nat) :
+    j ∈ PMM.whereAlias n row j0 ↔ ∃ i, j = j0 + i ∧ row[i]? = some (some n) := by
+  induction row generalizing j0 with
+  | nil => simp [PMM.whereAlias]
+  | cons r row ih =>
+    unfold PMM.whereAlias
+    by_cases hr : r = some n
+    · rw [if_pos hr, List.mem_cons, ih]
+      constructor
+      · rintro (h | ⟨i, h1, h2⟩)
+        · exact ⟨0, by omega, by simp [hr]⟩
+        · exact ⟨i + 1, by omega, by simpa using h2⟩
+      · rintro ⟨i, h1, h2⟩
+        cases i with
+        | zero => left; omega
+        | succ i => right; exact ⟨i, by omega, by simpa using h2⟩
+    · rw [if_neg hr, ih]
+      constructor
+      · rintro ⟨i, h1, h2⟩; exact ⟨i + 1, by omega, by simpa using h2⟩
+      · rintro ⟨i, h1, h2⟩
+        cases i with
+        | zero => simp at h2; exact absurd h2 hr
+        | succ i => exact ⟨i, by omega, by simpa using h2⟩
+
+theorem mem_whereTrue (m : List Bool) (j0 j : Nat) :
+    j ∈ whereTrue m j0 ↔ ∃ i, j = j0 + i ∧ m[i]? = some true := by
+  induction m generalizing j0 with
+  | nil => simp [whereTrue]
+  | cons b m ih =>
+    unfold whereTrue
+    cases b
+    · simp only [Bool.false_eq_true, if_false, ih]
+      constructor
+      · rintro ⟨i, h1, h2⟩; exact ⟨i + 1, by omega, by simpa using h2⟩
+      · rintro ⟨i, h1, h2⟩
+        cases i with
+        | zero => simp at h2
+        | succ i => exact ⟨i, by omega, by simpa using h2⟩
+    · simp only [if_true, List.mem_cons, ih]
+      constructor
+      · rintro (h | ⟨i, h1, h2⟩)
+        · exact ⟨0, by omega, by simp⟩
+        · exact ⟨i + 1, by omega, by simpa using h2⟩
+      · rintro ⟨i, h1, h2⟩
+        cases i with
+        | zero => left; omega
+        | succ i => right; exact ⟨i, by omega, by simpa using h2⟩
+
+end C04
+
+/-- **`is_global_fitparam_a_local_param` agrees with the producer of `:gpidx`**: for a field `f`, fit
+parameter `k` "is the local parameter `f`" exactly when the table cell of `f` of some (selected) source
+carries the index entry `k + 1` -/
+theorem c04_fitparam_is_local (s : PMM V) (hw : C04.PMMWF s) (g : List V)
+    (hg : g.length = s.gps.floatNames.length) (sel : Option (List Nat)) (k : Nat) (f : String)
+    (hf : f ∈ s.srcFieldNames) :
+    ∃ rec, s.srcParamsRecarray g sel = .ok rec ∧
+      (PMM.isGlobalFitparamALocalParam k rec [f] = true ↔
+        ∃ i ∈ s.srcModelIdxs sel, ∃ row, s.mpn[i]? = some row ∧
+          PMM.cellGpidx (Spec.cell f s.gps.params row 0 0 g) = (k : Int) + 1) := by
+  obtain ⟨rows, hrec, hidx, _, hcells⟩ := c04_src_recarray s hw g hg sel
+  obtain ⟨c, hc⟩ := C04.idxOf?_mem hf
+  refine ⟨_, hrec, ?_⟩
+  have hrowOf : ∀ r ∈ rows, ∃ row, s.mpn[r.1]? = some row := by
+    intro r hr
+    have hmem : r.1 ∈ s.srcModelIdxs sel := by rw [← hidx]; exact List.mem_map_of_mem hr
+    obtain ⟨⟨m, hm, _⟩, _⟩ := (c04_src_model_idxs s sel r.1).1 hmem
+    have hlt : r.1 < s.mpn.length := by rw [hw.rows]; exact (List.getElem?_eq_some_iff.1 hm).1
+    exact ⟨s.mpn[r.1], List.getElem?_eq_getElem hlt⟩
+  have hcell : ∀ r ∈ rows, ∀ row, s.mpn[r.1]? = some row →
+      r.2[c]? = some (Spec.cell f s.gps.params row 0 0 g) := by
+    intro r hr row hrow
+    rw [hcells r hr row hrow]
+    exact C04.idxOf?_getElem_map _ hc
+  simp only [PMM.isGlobalFitparamALocalParam, PMM.gpidxColumn, hc, List.any_cons, List.any_nil, Bool.or_false,
+    List.any_map, List.any_eq_true, Function.comp]
+  constructor
+  · rintro ⟨r, hr, hgp⟩
+    obtain ⟨row, hrow⟩ := hrowOf r hr
+    refine ⟨r.1, by rw [← hidx]; exact List.mem_map_of_mem hr, row, hrow, ?_⟩
+    rw [hcell r hr row hrow] at hgp
+    simpa using hgp
+  · rintro ⟨i, hi, row, hrow, hgp⟩
+    rw [← hidx] at hi
+    obtain ⟨r, hr, rfl⟩ := List.mem_map.1 hi
+    refine ⟨r, hr, ?_⟩
+    rw [hcell r hr row hrow]
+    simpa using hgp
+
+/-- a name that is no column of the record array is skipped (`continue`) -/
+theorem c04_fitparam_skips_unknown (k : Nat) (rec : PMM.RecArray V) (f : String) (names : List String)
+    (hf : f ∉ rec.1) :
+    PMM.isGlobalFitparamALocalParam k rec (f :: names) = PMM.isGlobalFitparamALocalParam k rec names := by
+  simp [PMM.isGlobalFitparamALocalParam, PMM.gpidxColumn, C04.idxOf?_not_mem hf]
+
+/-- **`get_local_param_is_global_floating_param_mask`**: the entry of a local name is true exactly when
+some model (source or not) has a *floating* global parameter mapped under that name -/
+theorem c04_local_is_floating_mask (s : PMM V) (hw : C04.PMMWF s) (names : List String) (i : Nat) (n : String)
+    (hn : names[i]? = some n) :
+    (s.localParamIsGlobalFloatingMask names)[i]? = some true ↔
+      ∃ row ∈ s.mpn, ∃ (j : Nat) (p : Param V),
+        row[j]? = some (some n) ∧ s.gps.params[j]? = some p ∧ p.isfixed = false := by
+  have hfm : s.gps.floatMask = s.gps.params.map (fun p => !p.isfixed) := by
+    simp [PSet.floatMask, hw.gps.mask]
+  unfold PMM.localParamIsGlobalFloatingMask
+  simp only [List.getElem?_map, hn, Option.map_some, Option.some.injEq, List.any_eq_true, List.mem_eraseDups,
+    List.mem_flatMap, List.contains_iff_mem, C04.mem_whereAlias, C04.mem_whereTrue, hfm, Nat.zero_add]
+  constructor
+  · rintro ⟨j, ⟨row, hrow, i1, hj1, h1⟩, i2, hj2, h3⟩
+    subst hj1
+    subst hj2
+    simp only [Option.map_eq_some_iff] at h3
+    obtain ⟨p, hp, hpf⟩ := h3
+    exact ⟨row, hrow, j, p, h1, hp, by simpa using hpf⟩
+  · rintro ⟨row, hrow, j, p, h1, hp, hpf⟩
+    refine ⟨j, ⟨row, hrow, j, rfl, h1⟩, j, rfl, ?_⟩
+    simp [hp, hpf]
+
+/-- `create_src_params_recarray(None)`: never raises (the vector of NaNs has the right length by
+construction), same rows as for any other vector -/
+theorem c04_src_recarray_none (nan : V) (s : PMM V) (hw : C04.PMMWF s) (sel : Option (List Nat)) :
+    ∃ rows, PMM.srcParamsRecarrayNone nan s sel = .ok (s.srcFieldNames, rows) ∧
+      rows.map (·.1) = s.srcModelIdxs sel ∧
+      ∀ r ∈ rows, ∀ row, s.mpn[r.1]? = some row → r.2 = s.srcFieldNames.map (fun f =>
+        Spec.cell f s.gps.params row 0 0 (List.replicate s.gps.floatNames.length nan)) := by
+  obtain ⟨rows, h1, h2, _, h4⟩ := c04_src_recarray s hw (List.replicate s.gps.floatNames.length nan)
+    (List.length_replicate ..) sel
+  exact ⟨rows, h1, h2, h4⟩
+
+/-- a value vector of the wrong length is rejected by `create_src_params_recarray` (any selection form) -/
+theorem c04_recarray_rejects_wrong_length (s : PMM V) (g : List V) (sel : Option (List Nat)) (idxs : List Nat)
+    (hg : g.length ≠ s.gps.floatNames.length) :
+    s.srcParamsRecarray g sel = .error .valueError ∧ s.srcParamsRecarrayIdx g idxs = .error .valueError := by
+  unfold PMM.srcParamsRecarray PMM.srcParamsRecarrayIdx
+  simp [hg]
+
+/-- the `int32` index-array form with the indices of the selected sources gives the same record array as
+the selection by `SourceModel` objects -/
+theorem c04_src_recarray_idx_eq (s : PMM V) (hw : C04.PMMWF s) (g : List V) (sel : Option (List Nat)) :
+    s.srcParamsRecarrayIdx g (s.srcModelIdxs sel) = s.srcParamsRecarray g sel := by
+  have key : ∀ is : List Nat, (∀ i ∈ is, i ∈ s.srcModelIdxs sel) →
+      s.srcRowsIdx g s.srcFieldNames is = s.srcRows g s.srcFieldNames is := by
+    intro is
+    induction is with
+    | nil => intro _; rfl
+    | cons i is ih =>
+      intro h
+      obtain ⟨⟨m, hm, hsrc⟩, _⟩ := (c04_src_model_idxs s sel i).1 (h i (by simp))
+      have hlt : i < s.mpn.length := by rw [hw.rows]; exact (List.getElem?_eq_some_iff.1 hm).1
+      have hrow : s.mpn[i]? = some s.mpn[i] := List.getElem?_eq_getElem hlt
+      have hall : ((s.mpn[i]).filterMap id).all (fun a => s.srcFieldNames.contains a) = true := by
+        rw [List.all_eq_true]
+        intro a ha
+        rw [List.contains_iff_mem, c04_src_fields]
+        obtain ⟨o, ho, hoa⟩ := List.mem_filterMap.1 ha
+        simp only [id] at hoa
+        subst hoa
+        exact ⟨i, m, s.mpn[i], hm, hsrc, hrow, ho⟩
+      unfold PMM.srcRowsIdx PMM.srcRows
+      rw [hrow]
+      simp only [hall, if_true, ih (fun j hj => h j (by simp [hj]))]
+  unfold PMM.srcParamsRecarrayIdx PMM.srcParamsRecarray
+  rw [key _ (fun i hi => hi)]
